@@ -129,10 +129,15 @@ def check_pair(c):
             r.bad("bear-vs-vector", "bear=%r vector=%r displacement=%.3g deg" % (b, vb, d))
         r.stat("bear_disp", d)
     # array form = scalar form
-    A = at.gcd(np.array([ra1, ra3]), np.array([dec1, dec3]), np.array([ra2, ra2]), np.array([dec2, dec2]))
+    args = [np.array([ra1, ra3]), np.array([dec1, dec3]), np.array([ra2, ra2]), np.array([dec2, dec2])]
+    keep = [a.copy() for a in args]
+    A = at.gcd(*args)
     if not (np.shape(A) == (2,) and abs(A[0] - g12) <= 1e-12 and abs(A[1] - g32) <= 1e-12):
         r.bad("gcd-array", "array call gave %r, scalar calls %r" % (A, (g12, g32)))
-    B = at.bear(np.array([ra1, ra3]), np.array([dec1, dec3]), np.array([ra2, ra2]), np.array([dec2, dec2]))
+    B = at.bear(*args)
+    # the relations are about the caller's points: arrays handed in must still hold them afterwards
+    if not all(np.array_equal(a, k) for a, k in zip(args, keep)):
+        r.bad("input-modified", "gcd/bear changed an array argument: %r -> %r" % ([k.tolist() for k in keep], [a.tolist() for a in args]))
     b0 = float(at.bear(ra1, dec1, ra2, dec2))
     if not (np.shape(B) == (2,) and (abs(B[0] - b0) <= 1e-12)):
         r.bad("bear-array", "array call gave %r, scalar %r" % (B, b0))
@@ -176,9 +181,19 @@ def check_translate(c):
         res.stat("translate_bear_disp", disp)
     res.stat("translate_dist_err", d - rr)
     # array form
-    A = at.translate(np.array([ra, ra]), np.array([dec, dec]), np.array([rr, rr]), np.array([t, t]))
+    args = [np.array([ra, ra]), np.array([dec, dec]), np.array([rr, rr]), np.array([t, t])]
+    keep = [a.copy() for a in args]
+    A = at.translate(*args)
     if not (np.shape(A) == (2, 2) and abs(A[0][0] - ra2) <= 1e-12 and abs(A[1][1] - dec2) <= 1e-12):
         res.bad("translate-array", "array call gave %r, scalar %r" % (A, (ra2, dec2)))
+    # "a point at distance r and bearing t FROM THE START": the start (and r, t) handed in as arrays must survive the call,
+    # and the result must be measured from it
+    if not all(np.array_equal(a, k) for a, k in zip(args, keep)):
+        res.bad("input-modified", "translate changed an array argument: %r -> %r" % ([k.tolist() for k in keep], [a.tolist() for a in args]))
+    elif np.shape(A) == (2, 2) and 0 < rr < 180:
+        back = at.gcd(args[0], args[1], np.asarray(A[0]), np.asarray(A[1]))
+        if not np.all(np.abs(np.asarray(back, dtype=float) - rr) <= tol + 1e-9):
+            res.bad("translate-array-distance", "gcd(start arrays, translate(start arrays, r=%r, t=%r)) = %r" % (rr, t, back))
     res.nontrivial = bool(rr < 1e-6 or rr > 179.999 or abs(dec) > 89 or min(ra, 360 - ra) < 1.0)
     if rr < 1e-6:
         res.label("r<1e-6")
